@@ -204,6 +204,20 @@ func GenModel(p *PRNG, size int) *Model {
 		}
 		m.Resources = append(m.Resources, r)
 	}
+	// sometimes an explicit TAG carries the very name the path-derived tag of a resource would get
+	if len(m.Resources) > 0 && p.Chance(1, 4) {
+		r := Pick(p, m.Resources)
+		seg := strings.Split(strings.TrimPrefix(r.Path, "/"), "/")[0]
+		dup := false
+		for _, t := range m.Tags {
+			if t.Name == seg {
+				dup = true
+			}
+		}
+		if !dup && seg != "" {
+			m.Tags = append(m.Tags, MTag{Name: seg, Annotation: Pick(p, annWords), Description: genDescription(p)})
+		}
+	}
 	if p.Chance(1, 5) {
 		rp := MRpc{Path: fmt.Sprintf("/rpc%d", p.Intn(3))}
 		if !usedPaths[rp.Path] {
@@ -342,6 +356,9 @@ func genBodySchema(p *PRNG, m *Model) Schema {
 	case 3, 4:
 		if len(m.Types) > 0 {
 			t := Pick(p, m.Types).Name
+			if p.Chance(1, 3) { // array of a user type
+				return Schema{Notation: "ref", Body: "[@" + t + "]", Uses: []string{t}}
+			}
 			return Schema{Notation: "ref", Body: "@" + t, Uses: []string{t}}
 		}
 	case 5:
@@ -724,6 +741,9 @@ func (r *renderer) node(n *DNode, depth int, first bool) {
 				}
 				b.WriteString(ln)
 				end = b.Len() - 1
+				if l.TrailingWs && rng.Chance(1, 2) && !strings.Contains(ln, "//") {
+					b.WriteString(" \t") // trailing blanks after a body line
+				}
 				b.WriteString(l.NL)
 			}
 		}
